@@ -291,6 +291,12 @@ func Compare(b *Behaviour, nodes []tensor.Tensor) (detail string, known bool) {
 // gradient equals the specification's prediction under the recorded deviations
 // instead of the correct one.
 func Replay(b *Behaviour) (detail string, known bool) {
+	defer func() {
+		// reading a tensor back must never panic either: a panic here is the library's, not the harness's
+		if r := recover(); r != nil {
+			detail, known = fmt.Sprintf("panic while reading the tensors back: %v", r), false
+		}
+	}()
 	nodes, err := Exec(b, false)
 	if err != nil {
 		return err.Error(), false
